@@ -35,7 +35,8 @@ func startOracle(path string, n int) (*Oracle, error) {
 }
 
 func (o *Oracle) spawn() (*oproc, error) {
-	cmd := exec.Command(o.path)
+	// the extracted code recurses as deep as its input is long: give it stack
+	cmd := exec.Command("sh", "-c", "ulimit -s unlimited 2>/dev/null || ulimit -s 1000000 2>/dev/null; exec \"$0\"", o.path)
 	cmd.Stderr = os.Stderr
 	in, err := cmd.StdinPipe()
 	if err != nil {
